@@ -27,7 +27,7 @@ from .model_zoo import ADAPTERS, TEMPLATES, obs_diff, project
 
 VERIF = os.path.dirname(os.path.dirname(os.path.dirname(os.path.abspath(__file__))))
 
-OP_WEIGHTS = {"new": 2, "mutate": 30, "read": 12, "spawn": 12, "save": 8, "load": 7, "split": 5, "replay": 6,
+OP_WEIGHTS = {"new": 2, "mutate": 30, "read": 12, "spawn": 12, "save": 8, "load": 7, "split": 12, "replay": 6,
               "drop": 3, "handoff": 1}
 FAULT_KINDS = ("open_enoent", "open_eacces", "open_enospc", "write_enospc", "write_eio", "read_eio", "close_eio", "crash")
 RTOL = 1e-9
@@ -177,7 +177,7 @@ class ModelsWorld(World):
         for n in names:
             lo, hi = t["params"][n]
             if nv > 1 and val.random() < 0.6:
-                k = val.randint(1, nv)
+                k = nv if val.random() < 0.5 else val.randint(1, nv)
                 out[n] = [round(val.uniform(lo, hi), 3) for _ in range(k)]
             else:
                 out[n] = round(val.uniform(lo, hi), 3)
@@ -210,6 +210,9 @@ class ModelsWorld(World):
         if cls == "sim":
             if x < 0.35:
                 m = {"k": "assign", "values": self._draw_params(val, r.tname, nv, subset=True, rng=rng)}
+                if rng.random() < 0.12 and TEMPLATES[r.tname]["shocks"]:
+                    # assigning a level to a shock is legal; the assignment rules reset it to zero in every variant
+                    m["values"][rng.choice(TEMPLATES[r.tname]["shocks"])] = [1.0] * nv if nv > 1 and rng.random() < 0.5 else 1.0
                 if rng.random() < 0.15:
                     # (level, change) pair for a variable
                     tv = [q.human for q in r.real.quantities if "TRANSITION_VARIABLE" in str(q.kind)]
@@ -225,7 +228,7 @@ class ModelsWorld(World):
             else:
                 if not TEMPLATES[r.tname]["shocks"]:
                     return None
-                m = {"k": "rescale_stds", "factor": rng.choice([0.5, 2.0])}
+                m = {"k": "rescale_stds", "factor": rng.choice([0.5, 2.0])} if rng.random() < 0.6 else {"k": "reset_stds"}
         elif cls == "seq":
             if x < 0.4:
                 m = {"k": "assign", "values": {k: v for k, v in self._draw_params(val, r.tname, 1, subset=True, rng=rng).items()}}
@@ -402,15 +405,41 @@ class ModelsWorld(World):
         pred = self._pred(r)
         if m["k"] in ("steady", "solve") and r.origin != "root" and not any(op["k"] == m["k"] for op in r.log):
             self.probes["first_" + m["k"] + "_after_spawn"] += 1
+        before = self._cheap(r) if m["k"] in ("alter", "assign_variant") else None
         raised = self._mutate(r, m)
         opname = "mutate." + m["k"]
         self._isolation(opname, pred, exclude=(h,))
         self.digests[h] = self._digest(r)
+        if before is not None and raised is None and m["k"] == "alter":
+            self._check_alter(opname, pred, before, self._cheap(r), r)
+        if before is not None and raised is None and m["k"] == "assign_variant":
+            after = self._cheap(r)
+            v = m["v"] % before["nv"]
+            for k in range(before["nv"]):
+                if k != v:
+                    d = obs_diff(project(before["params"], k), project(after["params"], k))
+                    if d:
+                        raise Violation("split", opname, pred, "", f"assigning through the view of variant {v} changed variant {k}: {d}")
+        if m["k"] in ("steady", "solve", "estimate") and raised is None and r.real.num_variants > 1:
+            # the variant clause right where it matters: after an operation that works variant by variant
+            for k in range(r.real.num_variants):
+                self._split_check(r, k, opname)
         if m["k"] == "alter":
             self.probes["variant_count_altered"] += 1
         if m["k"] == "assign" and any(isinstance(v, list) and len(v) < r.real.num_variants for v in m["values"].values()):
             self.probes["assign_list_shorter_than_variants"] += 1
         return "ok" if raised is None else "raised:" + raised
+
+    def _check_alter(self, opname, pred, before, after, r):
+        """alter_num_variants keeps the first variants as they are and clones the last one into the new slots."""
+        keys = {"sim": ("params", "stds", "levels", "changes", "solution"), "seq": ("params",), "var": ("system", "fitted")}[r.cls]
+        n0, n1 = before["nv"], after["nv"]
+        for k in range(n1):
+            src = min(k, n0 - 1)
+            for key in keys:
+                d = obs_diff(project(before[key], src), project(after[key], k))
+                if d:
+                    raise Violation("split", opname, pred, "", f"after altering {n0} -> {n1} variants, variant {k} should hold what variant {src} held, but differs in {key}{d}")
 
     def _do_read(self, step, a):
         h = a["h"]
@@ -623,6 +652,14 @@ class ModelsWorld(World):
         return "ok"
 
     def _check_loaded(self, opname, pred, rec, child, path):
+        want = {"sim": zoo.ir.Simultaneous, "seq": zoo.ir.Sequential, "var": zoo.ir.RedVAR}[rec["cls"]]
+        if type(child.real) is not want:
+            raise Violation("spawn", opname, pred, "", f"{path} was written from a {want.__name__} but loads as {type(child.real).__name__}")
+        try:
+            self._cheap(child)
+        except Exception as e:
+            strip_traceback(e)
+            raise Violation("spawn", opname, pred, type(e).__name__, f"the model loaded from {path} cannot be observed through the public getters: {type(e).__name__}: {str(e)[:120]}")
         if rec["how"] == "to_portable_file":
             d = obs_diff(rec["portable"], ADAPTERS[child.cls].portable_fields(child.real))
             if d:
@@ -693,7 +730,12 @@ class ModelsWorld(World):
     def _do_split(self, step, a):
         h = a["h"]
         r = self.live[h]
-        k = a["k"]
+        out = self._split_check(r, a["k"], "split")
+        if out == "ok":
+            self._isolation("split", self._pred(r))
+        return out
+
+    def _split_check(self, r, k, opname):
         nv = r.real.num_variants
         if k >= nv or nv < 2:
             return "skipped"
@@ -723,19 +765,28 @@ class ModelsWorld(World):
             slog.append(op)
         m, sraised = self._fresh(r.tname, r.cls, slog)
         if any(x is not None for x in sraised):
-            raise Violation("split", "split", pred, "", f"operations that completed on the {nv}-variant model raise {sraised} on the single-variant model holding variant {k}'s values")
+            raise Violation("split", opname, pred, "", f"operations that completed on the {nv}-variant model raise {sraised} on the single-variant model holding variant {k}'s values")
         single = Replica(m, r.tname, r.cls, slog, r.owner, "singleton")
         keys = {"sim": ("params", "stds", "levels", "changes", "solution"), "seq": ("params",), "var": ("system", "fitted")}[r.cls]
         multi_c, single_c = self._cheap(r), self._cheap(single)
         for key in keys:
             d = obs_diff(project(single_c[key], 0), project(multi_c[key], k), RTOL)
             if d:
-                raise Violation("split", "split", pred, "", f"variant {k} of {nv} differs from the single-variant model with its values in {key}{d}")
-        d = obs_diff(project(self._deep(single), 0), project(self._deep(r), k), RTOL)
+                raise Violation("split", opname, pred, "", f"variant {k} of {nv} differs from the single-variant model with its values in {key}{d}")
+        sdeep, mdeep = self._deep(single), self._deep(r)
+        for key in list(mdeep):
+            if isinstance(mdeep[key], str) and mdeep[key].startswith("EXC:") and not isinstance(sdeep.get(key), str):
+                # the multi-variant call failed as a whole (one failing variant fails the call): the variant
+                # clause speaks about operations that completed
+                self.probes["split_key_skipped_multi_variant_call_failed"] += 1
+                mdeep.pop(key)
+                sdeep.pop(key, None)
+        d = obs_diff(project(sdeep, 0), project(mdeep, k), RTOL)
         if d:
-            raise Violation("split", "split", pred, "", f"variant {k} of {nv} behaves differently from the single-variant model with its values: {d}")
-        self._isolation("split", pred)
+            raise Violation("split", opname, pred, "", f"variant {k} of {nv} behaves differently from the single-variant model with its values: {d}")
         self.stats["split_checks"] += 1
+        if nv >= 3 and k >= 2:
+            self.probes["split_check_on_third_variant"] += 1
         return "ok"
 
     def _do_handoff(self, step, a):
